@@ -255,11 +255,17 @@ CHECKS = {
                 "early EOF, data after EOF) always yields exactly the declared size, real bytes then zeros, with count and digest "
                 "of the real bytes; add_file over a file changing at any read yields a record whose size and hash describe the "
                 "first `size` bytes of the entry (unique) or bytes already stored in the group (extern), or aborts. Tied to the "
-                "code by running the real FileReader over scripted readers against the extracted model (exhaustive small universe).",
-        "note": "Partial: the scheduled concurrent-writer runs against the real binary (truncate/append/unlink/replace at a chosen "
-                "system call) are not built yet; vanish/type-change handling lives in the walker model. Trusted: Coq kernel, "
-                "extraction + driver, harness, sha2/hashlib.",
-        "technique": "Coq proof (invariant over read calls with an oracle reader) + exhaustive differential correspondence",
+                "code by running the real FileReader over scripted readers against the extracted model (exhaustive small universe), and by "
+                "running the real `vsb backup` with a deterministic concurrent writer (LD_PRELOAD interposer acting right before a "
+                "chosen lstat / open / fstat / k-th read of the victim: truncate to 0 / half / around the offset, append, unlink, replace "
+                "by directory / symlink, rewrite, shrink-then-grow; nested and top-level; without / with matching / with touched previous "
+                "backup): the published backup is decoded independently and restored with `vsb restore`; size, hash, prefix and "
+                "neighbours are examined.",
+        "note": "Partial: the model of add_file is compared with the code at the FileReader level; the whole-run level is covered by the "
+                "property evaluation on scheduled runs, not by a step-by-step model comparison. The interposer covers libc-level calls of "
+                "the single walking thread. Trusted: Coq kernel, extraction + driver, harness, sha2/hashlib.",
+        "technique": "Coq proof (invariant over read calls with an oracle reader) + exhaustive differential correspondence + scheduled "
+                     "concurrent-writer runs of the real binary",
         "design": "7/C15",
     },
     "C18": {
